@@ -76,6 +76,36 @@ CLAIMS["C18"] = (
     TECH + "; arbitrary-stale-state one-step harnesses instead of call histories",
 )
 
+CLAIMS["C08"] = (
+    "rosu-map's own delivery-sensitive code, the BOM sniffing in Decoder::new, is executed against a harness-side "
+    "BufRead that delivers ARBITRARY data bytes in chunks of symbolic size (down to single bytes, first chunk shorter "
+    "than a BOM included) and reports Interrupted at symbolic refills: for every such schedule the detected encoding "
+    "is from_bom(data) and the bytes still to be read (re-chained sniffed bytes + the reader's rest) are exactly the "
+    "data minus the BOM -- nothing lost, duplicated or reordered; a hard reader error at a symbolic refill surfaces "
+    "unchanged. The check found defect D3 (first chunk < 3 bytes loses the whole file), repaired by fix commit in /repo.",
+    "Bound: data <= 5 bytes (quick) / 7 (thorough), <= 3-4 Interrupted results, <= 1 hard error. Outside: line assembly "
+    "(Decoder::read_line = std read_until/read_exact, whose chunk-independence is std's contract; read_line itself is "
+    "not executable under CBMC here: out of memory up to 40 GB) and with it whole-file chunk independence; from_path. "
+    "Trusted: std::io::Chain/Cursor as compiled by Kani; the harness reader honours the BufRead contract "
+    "(same buffer until consumed).",
+    "DESIGN.md §5 C08",
+    TECH + "; environment (reader) replaced by a nondeterministic stub with symbolic chunk sizes and fault points",
+)
+CLAIMS["C05"] = (
+    "Line classification of the framing rule, decided against a reference classifier written from the statement: "
+    "should_skip_line on every ASCII line of <= 5 bytes (blank, indented comment, single slash ...); "
+    "Section::try_from_line on every ASCII line of <= 14 bytes plus each real header with one symbolic byte inserted "
+    "anywhere (indented / suffixed / infixed headers are not headers; exactly the 11 names, case-sensitive); "
+    "try_version_from_line on short lines and on the version prefix followed by every ASCII tail (number after the last "
+    "'v', real i32 parser, +-(2^31-1) limit, bad number != not-a-version-line).",
+    "Bound: lines <= 5 / 14 bytes, version tails <= 1 byte (quick) / <= 4 bytes (thorough), ASCII only (non-ASCII white "
+    "space before '//' is outside). Outside: the driver loop that acts on the classes (skip-before-first-header, "
+    "header switching, error swallowing) -- no probe of the real loop finished under CBMC (DESIGN.md §5 C05). "
+    "Stubs: core::slice::memchr::{memchr,memrchr} replaced by the naive byte loop.",
+    "DESIGN.md §5 C05",
+    TECH + "; differential check of the three line classifiers against a reference on fully symbolic short lines",
+)
+
 NOT_APPLICABLE = {
     "C02": "whole-map text round trip needs Display/FromStr of floats and hundreds of map-shaped symbolic text bytes; Beatmap::encode alone exhausts 28 GB inside core::fmt under CBMC (DESIGN.md §5 C02, §7)",
     "C04": "oracle is the parser applied to encoder output (map-shaped text with printed floats); even the path-serialisation clause needs >= 12 symbolic text bytes through nested splits, beyond the measured budget (DESIGN.md §5 C04, §7)",
